@@ -528,3 +528,107 @@ pub fn merge_counts(a: &mut Value, b: &Value) {
         _ => {}
     }
 }
+
+/// Re-executes the current program under the `getrandom` interposer so that std's
+/// `RandomState` keys are a function of `VERIF_HASH_SEED` (DESIGN §2.1). No-op once active.
+pub fn ensure_shim(seed: u64) {
+    use std::os::unix::process::CommandExt;
+    if std::env::var("VERIF_SHIM").as_deref() == Ok("1") {
+        return;
+    }
+    if !shim_path().exists() {
+        machinery_error("shim/getrandom.so is missing (run ./check setup)");
+    }
+    let exe = std::env::current_exe().unwrap_or_else(|e| machinery_error(&format!("{e}")));
+    let err = std::process::Command::new(exe)
+        .args(std::env::args().skip(1))
+        .env("LD_PRELOAD", shim_path())
+        .env("VERIF_HASH_SEED", seed.to_string())
+        .env("VERIF_SHIM", "1")
+        .env("SOURCE_DATE_EPOCH", "1700000000")
+        .exec();
+    machinery_error(&format!("exec under shim failed: {err}"));
+}
+
+/// Change the hash seed of the running (shimmed) process: threads started afterwards draw their keys from it.
+pub fn set_hash_seed(seed: u64) {
+    unsafe {
+        let sym = libc::dlsym(libc::RTLD_DEFAULT, c"verif_seed_override".as_ptr());
+        let flag = libc::dlsym(libc::RTLD_DEFAULT, c"verif_seed_set".as_ptr());
+        if sym.is_null() || flag.is_null() {
+            machinery_error("getrandom shim not loaded (verif_seed_override not found)");
+        }
+        std::ptr::write_volatile(sym as *mut u64, seed);
+        std::ptr::write_volatile(flag as *mut i32, 1);
+    }
+}
+
+/// Tags of the sfnt tables whose bytes differ between two fonts (or that exist in only one).
+pub fn table_diff(a: &[u8], b: &[u8]) -> Vec<String> {
+    fn dir(d: &[u8]) -> BTreeMap<String, &[u8]> {
+        let mut m = BTreeMap::new();
+        if d.len() < 12 {
+            return m;
+        }
+        let n = u16::from_be_bytes([d[4], d[5]]) as usize;
+        for i in 0..n {
+            let Some(r) = d.get(12 + 16 * i..28 + 16 * i) else { break };
+            let off = u32::from_be_bytes([r[8], r[9], r[10], r[11]]) as usize;
+            let len = u32::from_be_bytes([r[12], r[13], r[14], r[15]]) as usize;
+            if let Some(t) = d.get(off..off + len) {
+                m.insert(String::from_utf8_lossy(&r[0..4]).into_owned(), t);
+            }
+        }
+        m
+    }
+    let (da, db) = (dir(a), dir(b));
+    let mut out = vec![];
+    for (k, va) in &da {
+        match db.get(k) {
+            Some(vb) if vb == va => {}
+            Some(vb) => out.push(format!("{k}({}/{})", va.len(), vb.len())),
+            None => out.push(format!("{k}(only first)")),
+        }
+    }
+    for k in db.keys() {
+        if !da.contains_key(k) {
+            out.push(format!("{k}(only second)"));
+        }
+    }
+    out
+}
+
+/// Every compilable-looking source under /repo/resources/testdata: designspaces, Glyphs files and
+/// packages, and UFOs that no designspace next to them references.
+pub fn repo_fixtures() -> Vec<PathBuf> {
+    fn walk(dir: &Path, out: &mut Vec<PathBuf>) {
+        let Ok(rd) = std::fs::read_dir(dir) else { return };
+        let mut entries: Vec<PathBuf> = rd.filter_map(|e| e.ok().map(|e| e.path())).collect();
+        entries.sort();
+        for p in entries {
+            let ext = p.extension().and_then(|e| e.to_str()).unwrap_or("");
+            match ext {
+                "designspace" | "glyphs" | "glyphspackage" | "ufo" => out.push(p),
+                _ if p.is_dir() => walk(&p, out),
+                _ => {}
+            }
+        }
+    }
+    let mut v = vec![];
+    walk(&Path::new(REPO).join("resources/testdata"), &mut v);
+    // drop UFOs referenced by some designspace in the same directory
+    let mut referenced = std::collections::BTreeSet::new();
+    for p in v.iter().filter(|p| p.extension().is_some_and(|e| e == "designspace")) {
+        if let Ok(s) = std::fs::read_to_string(p) {
+            for part in s.split("filename=\"").skip(1) {
+                if let Some(end) = part.find('"') {
+                    if let Some(dir) = p.parent() {
+                        referenced.insert(dir.join(&part[..end]));
+                    }
+                }
+            }
+        }
+    }
+    v.retain(|p| !(p.extension().is_some_and(|e| e == "ufo") && referenced.contains(p)));
+    v
+}
